@@ -39,12 +39,13 @@ Agrees(st, r, a) ==
          /\ (st.k \in {"sel", "rd"} => r.rows = a.rows)
 
 \* The same with the deviation "DoubleDeleteCount" (finding F21): two DELETEs whose scans overlap both count a
-\* row that only one of them removes, so an acknowledged DELETE may report up to the number of rows it named.
-AgreesDD(st, r, a) ==
+\* row that only one of them removes.  `od' = the rows that acknowledged DELETEs of *other* sessions name on the
+\* same table: an acknowledged DELETE may report those in addition to the rows it removes itself.
+AgreesDD(st, r, a, od) ==
     IF ~r.ok THEN TRUE
     ELSE /\ a.ok
          /\ (st.k \in {"ins", "ct", "dt"} => r.cnt = a.cnt)
-         /\ (st.k = "del" => r.cnt >= a.cnt /\ r.cnt <= Cardinality(st.rows))
+         /\ (st.k = "del" => r.cnt >= a.cnt /\ r.cnt <= a.cnt + Cardinality(st.rows \cap od))
          /\ (st.k \in {"sel", "rd"} => r.rows = a.rows)
 
 \* N: table names, S: sessions, P: session -> statements, R: session -> outcomes (a prefix of P),
@@ -60,6 +61,10 @@ ExplainsG(N, S, P, R, db, pos, final) ==
            IN  /\ Agrees(st, r, a)
                /\ ExplainsG(N, S, P, R, IF r.ok THEN a.db ELSE db, [pos EXCEPT ![s] = @ + 1], final)
 
+OtherDeletes(S, P, R, s, t) ==
+    UNION {UNION {P[x][j].rows : j \in {k \in DOMAIN R[x] : P[x][k].k = "del" /\ P[x][k].t = t /\ R[x][k].ok}}
+           : x \in S \ {s}}
+
 RECURSIVE ExplainsDD(_, _, _, _, _, _, _)
 ExplainsDD(N, S, P, R, db, pos, final) ==
     IF \A s \in S : pos[s] = Len(R[s])
@@ -68,7 +73,7 @@ ExplainsDD(N, S, P, R, db, pos, final) ==
            LET st == P[s][pos[s] + 1]
                r  == R[s][pos[s] + 1]
                a  == AbsExec(db, st)
-           IN  /\ AgreesDD(st, r, a)
+           IN  /\ AgreesDD(st, r, a, OtherDeletes(S, P, R, s, st.t))
                /\ ExplainsDD(N, S, P, R, IF r.ok THEN a.db ELSE db, [pos EXCEPT ![s] = @ + 1], final)
 
 ==============================================================================
